@@ -214,6 +214,8 @@ def _attrs(pairs):
 def _val(v):
     if isinstance(v, dict) and "$o" in v:
         import json
+        if v["$o"].startswith("("):
+            return tuple(json.loads("[" + v["$o"][1:-1] + "]"))
         return json.loads(v["$o"])
     if isinstance(v, dict) and "$set" in v:
         return {_val(x) for x in v["$set"]}
@@ -412,3 +414,33 @@ def nontrivial(snap, kinds):
 
 NAME = "Hypergraph"
 factory = xgi.Hypergraph
+
+
+def small_alphabet():
+    """a fixed 14-op alphabet over nodes {0,1,2} / edge ids {0,1}; all sequences up to a depth are enumerated in the
+    thorough tier (exhaustive small-scope validation of the correspondence, not of the property)"""
+    A = []
+    A.append({"op": "add_edge", "members_raw": [0, 1], "idx": "$auto", "attr": []})
+    A.append({"op": "add_edge", "members_raw": [1, 2], "idx": 0, "attr": []})
+    A.append({"op": "add_edge", "members_raw": [1], "idx": 1, "attr": [["w", 1]]})
+    A.append({"op": "add_edges_from", "fmt": 2, "items": [{"members": [0, 1], "idx": 1}, {"members": [1, 2], "idx": 0}], "attr": []})
+    A.append({"op": "add_edges_from", "fmt": 1, "items": [{"members": [0, 1]}, {"members": [0, 1]}], "attr": []})
+    A.append({"op": "add_node_to_edge", "e": 0, "n": 2})
+    A.append({"op": "remove_node", "n": 1, "strong": False, "remove_empty": True})
+    A.append({"op": "remove_node", "n": 1, "strong": True, "remove_empty": True})
+    A.append({"op": "remove_node", "n": 0, "strong": False, "remove_empty": False})
+    A.append({"op": "remove_edge", "e": 0})
+    A.append({"op": "remove_node_from_edge", "e": 0, "n": 1, "remove_empty": True})
+    A.append({"op": "merge_duplicate_edges", "rename": "first", "merge_rule": "first"})
+    A.append({"op": "double_edge_swap", "n1": 0, "n2": 2, "e1": 0, "e2": 1})
+    A.append({"op": "clear_edges"})
+    return A
+
+
+def exhaustive_histories(depth):
+    import copy as _copy
+    import itertools as _it
+    A = small_alphabet()
+    for d in range(1, depth + 1):
+        for combo in _it.product(range(len(A)), repeat=d):
+            yield [_copy.deepcopy(A[i]) for i in combo]
